@@ -144,7 +144,8 @@ func ZZ_C05_Lifecycle(q, closers, handlerClose, nreads, rkind, swallow int) {
 				vrt.Assert(probe.inactiveEx == errs[k], "c05-inactive-carries-winning-error")
 			}
 		}
-		vrt.Assert(probe.inactiveEx == ch.closeErr, "c05-inactive-carries-effective-close-error")
+		box, _ := ch.closeErr.Load().(closeErrBox)
+		vrt.Assert(probe.inactiveEx == box.err, "c05-inactive-carries-effective-close-error")
 		vrt.Reach("c05-closed")
 	} else {
 		vrt.Assert(tr.closes == 0 && probe.inactives == 0 && ch.IsActive(), "c05-stays-open")
